@@ -752,6 +752,7 @@ func (m *Machine) InitAll(pkg *ssa.Package) {
 	m.onceRun = map[*Value]bool{}
 	m.reached = map[string]bool{}
 	m.ConcOn = true
+	m.allocBudget = 1 << 30 // initialisers build tables; the per-run budget is set by resetRun
 	t := m.newThread("init")
 	m.cur = t
 	m.ensureInit(pkg)
